@@ -132,6 +132,16 @@ impl SwiftField for Field25P {
             });
         }
 
+        // The format is 35x on the first line and the BIC on the second: nothing may follow
+        if lines.len() > 2 {
+            return Err(ParseError::InvalidFormat {
+                message: format!(
+                    "Field 25P has at most 2 lines (account, BIC), found {}",
+                    lines.len()
+                ),
+            });
+        }
+
         // Parse account (first line, up to 35 characters)
         let account = parse_max_length(lines[0], 35, "Field 25P account")?;
         parse_swift_chars(&account, "Field 25P account")?;
